@@ -102,17 +102,17 @@ Section Bin.
     match goal with |- context [if ?b then _ else _] => destruct b end;
     [rewrite opaque_toks, (fsl_pt e Hb); reflexivity|].
 
-  Definition S (e : expr) : Prop := binfam e = true -> tok_ok O e = true ->
+  Definition Sbin (e : expr) : Prop := binfam e = true -> tok_ok O e = true ->
     forall i, toks (render (fd e i)) = toks (pt e).
 
   Ltac leaf :=
-    match goal with |- S ?e =>
+    match goal with |- Sbin ?e =>
       let Hb := fresh in let Hk := fresh in let i := fresh in let Hcc := fresh in
       intros Hb Hk i; destruct (node_of e Hk) as [_ [_ Hcc]];
       enter e Hb; unfold multiline_doc; rewrite ?Hcc, ?andb_false_r; rewrite opaque_toks; reflexivity
     end.
 
-  Lemma step_assign : forall x e, S e -> S (EAssign x e).
+  Lemma step_assign : forall x e, Sbin e -> Sbin (EAssign x e).
   Proof.
     intros x e IHe Hb Hk i. pose proof Hk as Hk'. cbn [tok_ok] in Hk'. apply andb_prop in Hk'. destruct Hk' as [_ Hk'].
     apply andb_prop in Hk'. destruct Hk' as [Hx Hv]. pose proof Hb as Hbv. cbn [binfam] in Hbv.
@@ -123,7 +123,7 @@ Section Bin.
     cbn [print_text]. now rewrite sapp_assoc.
   Qed.
 
-  Lemma step_bin : forall o e1 e2, S e1 -> S e2 -> S (EBin o e1 e2).
+  Lemma step_bin : forall o e1 e2, Sbin e1 -> Sbin e2 -> Sbin (EBin o e1 e2).
   Proof.
     intros o e1 e2 IHe1 IHe2 Hb Hk i.
     pose proof Hk as Hk'. cbn [tok_ok] in Hk'. apply andb_prop in Hk'. destruct Hk' as [_ Hk'].
@@ -216,17 +216,17 @@ Section Bin.
       pcs Hc Ht; rewrite (pieces_toks _ _ Hk), HS; reflexivity.
   Qed.
 
-  Definition P (e : expr) : Prop := binfam e = true -> tok_ok O e = true ->
+  Definition Pbin (e : expr) : Prop := binfam e = true -> tok_ok O e = true ->
     (forall i, toks (render (fd e i)) = toks (pt e)) /\ CH e.
 
-  Lemma P_of_S : forall e, (match e with ECond _ _ _ => False | _ => True end) -> S e -> P e.
+  Lemma P_of_S : forall e, (match e with ECond _ _ _ => False | _ => True end) -> Sbin e -> Pbin e.
   Proof.
     intros e Hne HS Hb Hk. split; [exact (HS Hb Hk)|]. exact (ch_plain e Hne Hk (HS Hb Hk)).
   Qed.
-  Lemma S_of_P : forall e, P e -> S e.
+  Lemma S_of_P : forall e, Pbin e -> Sbin e.
   Proof. intros e HP Hb Hk. exact (proj1 (HP Hb Hk)). Qed.
 
-  Lemma step_cond : forall c t f, P c -> P t -> P f -> P (ECond c t f).
+  Lemma step_cond : forall c t f, Pbin c -> Pbin t -> Pbin f -> Pbin (ECond c t f).
   Proof.
     intros c t f Pc Pt Pf Hb Hk.
     pose proof Hk as Hk'. cbn [tok_ok] in Hk'. apply andb_prop in Hk'. destruct Hk' as [_ Hk'].
@@ -252,7 +252,7 @@ Section Bin.
     rewrite (proj1 (doc_toks _ Hd)), (Cf _ _ _ _ i HC HT), (pt_cond_toks c t f E1 E2). reflexivity.
   Qed.
 
-  Theorem binfam_all : forall e, P e.
+  Theorem binfam_all : forall e, Pbin e.
   Proof.
     induction e; try (intro Hd; discriminate Hd);
       try (apply P_of_S; [exact I|leaf]).
@@ -260,7 +260,7 @@ Section Bin.
     - apply P_of_S; [exact I|]. apply step_assign. apply S_of_P. assumption.
     - apply P_of_S; [exact I|]. apply step_bin; apply S_of_P; assumption.
   Qed.
-  Theorem binfam_toks : forall e, S e.
+  Theorem binfam_toks : forall e, Sbin e.
   Proof. intro e. apply S_of_P, binfam_all. Qed.
 
   Corollary binfam_lview : forall e i, binfam e = true -> tok_ok O e = true ->
